@@ -3,6 +3,9 @@ import CCVerif.Lemmas.JsonDoc
 import CCVerif.Lemmas.JsonDocTags
 import CCVerif.Lemmas.JsonOss
 import CCVerif.Lemmas.JsonOssLoad
+import CCVerif.Lemmas.JsonOssGraph
+import CCVerif.Lemmas.JsonOssReach
+import CCVerif.Lemmas.JsonOssOrder
 /-!
 # C10 — saving and loading through JSON is lossless and stable
 
@@ -564,5 +567,269 @@ theorem oss_load_wf_partial (env : Env) (ps l : List Pict) (hs : ∀ p ∈ ps, p
 
 /-- non-vacuity: a repeated uid in an occupied cell -/
 example : loadPicts ⟨fun _ => 99⟩ [] [{ uid := 1 }, { uid := 1 }] = .ok [{ uid := 1 }, { uid := 99, pos := ⟨0, 1⟩ }] := by rfl
+
+end CCVerif.JsonOss
+
+
+/-! ## the OSS document and the C19 machine (`Model/Oss.lean`)
+
+`Lemmas/JsonOssGraph.lean`, `Lemmas/JsonOssReach.lean`. The document loader's connection step IS the C19
+model's `LoadParent` (`oss_graph_is_c19_loadParent`); hence for every schema REACHED by a history of the
+C19 machine the written document loads back to the same content and the loaded key tables satisfy
+`StructInv` (`oss_roundtrip_reachable_partial`), also with the `items` and `connections` arrays rearranged
+(`oss_reload_rearranged`: C19's "documents loaded in arbitrary item order"). NOT reproduced in general: the
+ORDER of the `connections` array / `ExecuteOrder` (`oss_connection_order_counterexample`, replayed on the
+real code by `harness/replay/c10_oss_order.cpp`); `RowsCanon` (hypothesis of `oss_roundtrip`) is not an
+invariant of reachable schemas — already one plain reload breaks it (`rowsCanon_not_invariant`). -/
+namespace CCVerif.JsonOss
+open CCVerif.Json
+open CCVerif.Oss (Pid Graph Struct St Op Variant Oracle StructInv run runHist admissibleRun exampleOracle)
+
+/-- **oss_graph_is_c19_loadParent** (projection law): on a row table with distinct items in which every
+parent is an item (`RInv`, kept by `LoadParent`, true of the empty facet), the document loader's
+`loadParent` projects to `Oss.Graph.loadParent` of the C19 machine; a whole `connections` array projects
+to `Graph.loadParents` — the connection loop of C19's `loadDoc` — and `ParentsOf` of the projection is
+the row. -/
+theorem oss_graph_is_c19_loadParent :
+    (∀ (g : Rows) (c p : Pid), RInv g →
+      toGraph (loadParent g c p) = ((toGraph g).loadParent c p).1 ∧ RInv (loadParent g c p)) ∧
+    (∀ es : List (Pid × Pid), toGraph (loadEdges [] es) = ({} : Graph).loadParents es ∧ RInv (loadEdges [] es)) ∧
+    (∀ (g : Rows), RInv g → ∀ p, (toGraph g).parentsOf p = rowOf g p) :=
+  ⟨fun _ c p h => ⟨(toGraph_loadParent h c p).1, (toGraph_loadParent h c p).2.1⟩,
+   toGraph_loadEdges_nil, fun _ h p => parentsOf_toGraph h p⟩
+
+/-- non-vacuity: the diamond's rows satisfy `RInv`; the third parent `5 → 1` is added in both models alike -/
+example : RInv diamond.rows ∧
+    toGraph (loadParent diamond.rows 5 1) = ((toGraph diamond.rows).loadParent 5 1).1 ∧
+    (toGraph (loadParent diamond.rows 5 1)).parentsOf 5 = [3, 4, 1] := by
+  have h : RInv diamond.rows := ⟨by decide, by unfold Closed; decide⟩
+  exact ⟨h, (toGraph_loadParent h 5 1).1, by decide⟩
+
+/-- save and load for reachable schemas, all fields of `oss_roundtrip` — full statement (FALSE: the order of
+the connections) -/
+def oss_roundtrip_reachable_statement : Prop :=
+  ∀ (v : Variant) (o : Oracle) (ops : List Op) (st : St), run v o ops = some st → admissibleRun v o ops = true →
+    ∀ (c : Oss), Represents st.s c → (∀ p ∈ c.items, ∀ x, p.op = some x → OpWf x) → ∀ env : Env,
+    ∃ c', ossFromJson env (ossToJson c) = .ok c' ∧ c'.title = c.title ∧ c'.comment = c.comment ∧
+      c'.domain = c.domain ∧ c'.items = c.items ∧ edgeList c'.rows = edgeList c.rows ∧
+      (∀ p, rowOf c'.rows p = rowOf c.rows p) ∧ StructInv (toStruct c')
+
+/-- **oss_roundtrip_reachable_partial**: for EVERY state reached by a history of the C19 machine (any
+variant, any oracle; admissibility is not needed), every content `c` the writer can read from it
+(`Represents`: the pictograms in any order with their cells and handles, the graph facet in index order)
+whose stored equation / translation maps have distinct keys (they are `unordered_map`s): the written document
+loads; header, the list of pictograms with every stored field, and the parents of every pictogram in operand
+order are reproduced; the connections are reproduced up to the order of the array; the loaded key tables
+satisfy the structural invariant of C19. Missing from `oss_roundtrip_reachable_statement`: the ORDER of
+`connections` (false: `oss_connection_order_counterexample`). -/
+theorem oss_roundtrip_reachable_partial (v : Variant) (o : Oracle) (ops : List Op) (st : St)
+    (hrun : run v o ops = some st) (c : Oss) (hc : Represents st.s c)
+    (hmaps : ∀ p ∈ c.items, ∀ x, p.op = some x → OpWf x) (env : Env) :
+    ∃ c', ossFromJson env (ossToJson c) = .ok c' ∧ c'.title = c.title ∧ c'.comment = c.comment ∧
+      c'.domain = c.domain ∧ c'.items = c.items ∧ (edgeList c'.rows).Perm (edgeList c.rows) ∧
+      (∀ p, rowOf c'.rows p = rowOf c.rows p) ∧ StructInv (toStruct c') := by
+  have hs := CCVerif.Oss.structInv_history v o ops st hrun
+  have hk : (keysOf c.rows).Nodup := by rw [hc.rows]; exact (rinv_rowsOf hs.keys.graphWf).1
+  obtain ⟨c', h1, h2, h3, h4, h5, h6, h7, _, h9⟩ := load_rearranged hs hc hmaps env c.items (List.Perm.refl _)
+    (layoutToJson c.items) (edgeList c.rows) (fun q => edgeList_fibre c.rows hk q)
+  exact ⟨c', by rw [ossToJson_eq]; exact h1, h2, h3, h4, h5, h7, h6, h9⟩
+
+/-- **oss_reload_rearranged** (C19: "documents loaded in arbitrary item order"): the document of a reachable
+schema with its `items` array rearranged arbitrarily, any `layout` value (never read), and its `connections`
+array rearranged so that every child keeps the order of its own connections (`hord`; it implies that `es`
+is a rearrangement of the written array) loads to a content with exactly these pictograms, the same parents
+per pictogram in operand order, whose graph facet is the `LoadParent` run of the C19 machine on `es`
+(`Graph.loadParents`: the connection loop of `loadDoc` / `Op.reload`) and whose key tables satisfy
+`StructInv`. -/
+theorem oss_reload_rearranged (v : Variant) (o : Oracle) (ops : List Op) (st : St)
+    (hrun : run v o ops = some st) (c : Oss) (hc : Represents st.s c)
+    (hmaps : ∀ p ∈ c.items, ∀ x, p.op = some x → OpWf x) (env : Env)
+    (items' : List Pict) (hitems : items'.Perm c.items) (layout : Json)
+    (es : List (Pid × Pid)) (hord : ∀ q, (es.filter (·.1 == q)).map (·.2) = rowOf c.rows q) :
+    ∃ c', ossFromJson env (ossDoc c.title c.comment c.domain items' layout es) = .ok c' ∧
+      c'.title = c.title ∧ c'.comment = c.comment ∧ c'.domain = c.domain ∧ c'.items = items' ∧
+      (∀ q, rowOf c'.rows q = rowOf c.rows q) ∧ (edgeList c'.rows).Perm (edgeList c.rows) ∧
+      toGraph c'.rows = ({} : Graph).loadParents es ∧ StructInv (toStruct c') :=
+  load_rearranged (CCVerif.Oss.structInv_history v o ops st hrun) hc hmaps env items' hitems layout es hord
+
+/-- `hord` says that `es` is a rearrangement of the written `connections` array -/
+theorem oss_reload_rearranged_perm (v : Variant) (o : Oracle) (ops : List Op) (st : St)
+    (hrun : run v o ops = some st) (c : Oss) (hc : Represents st.s c)
+    (es : List (Pid × Pid)) (hord : ∀ q, (es.filter (·.1 == q)).map (·.2) = rowOf c.rows q) :
+    es.Perm (edgeList c.rows) := by
+  have hs := CCVerif.Oss.structInv_history v o ops st hrun
+  have hk : (keysOf c.rows).Nodup := by rw [hc.rows]; exact (rinv_rowsOf hs.keys.graphWf).1
+  have hn : ∀ q, (rowOf c.rows q).Nodup := fun q => by rw [hc.rowOf hs q]; exact parents_nodup hs q
+  rw [List.perm_ext_iff_of_nodup (CCVerif.Oss.nodup_of_fibres (fun q => by rw [hord q]; exact hn q)) (edgeList_nodup hk hn)]
+  rintro ⟨a, b⟩
+  rw [mem_edgeList hk, ← mem_fibre, hord a]
+
+/-- `hord` checked on the items of the facet: no other pictogram is the child of a connection -/
+theorem hord_of_check (es : List (Pid × Pid)) (g : Rows) (h1 : ∀ e ∈ es, e.1 ∈ keysOf g)
+    (h2 : ∀ q ∈ keysOf g, (es.filter (·.1 == q)).map (·.2) = rowOf g q) :
+    ∀ q, (es.filter (·.1 == q)).map (·.2) = rowOf g q := by
+  intro q
+  by_cases hq : q ∈ keysOf g
+  · exact h2 q hq
+  · rw [rowOf_not_key hq]
+    have : es.filter (·.1 == q) = [] := by
+      rw [List.filter_eq_nil_iff]
+      intro e he
+      simp only [beq_iff_eq]
+      intro heq
+      exact hq (heq ▸ h1 e he)
+    rw [this]; rfl
+
+/-- `Represents`, decided -/
+def representsB (s : Struct) (c : Oss) : Bool :=
+  decide ((c.items.map (·.uid)).Perm s.storage) && c.items.all (fun p => s.grid.posOf p.uid == some p.pos) &&
+  c.items.all (fun p => p.src.isSome == s.srcKeys.contains p.uid) &&
+  c.items.all (fun p => p.op.isSome == s.isOperable p.uid) && (c.rows == rowsOf s.graph)
+
+theorem represents_of_b {s : Struct} {c : Oss} (h : representsB s c = true) : Represents s c := by
+  simp only [representsB, Bool.and_eq_true, decide_eq_true_eq, List.all_eq_true, beq_iff_eq] at h
+  obtain ⟨⟨⟨⟨h1, h2⟩, h3⟩, h4⟩, h5⟩ := h
+  exact ⟨h1, h2, h3, h4, h5⟩
+
+/-- the diamond built through the API: bases 1, 2, 4; 3 = 1 + 2; 5 = 3 + 4 (`ChildPosFor` puts 5 into cell (2, 0)) -/
+def histDiamond : List Op := [.insertBase 1, .insertBase 2, .insertBase 4, .insertOperation 1 2 3, .insertOperation 3 4 5]
+
+def diamondR : Oss :=
+  { diamond with items := diamond.items.map fun p => if p.uid == 5 then { p with pos := ⟨2, 0⟩ } else p }
+
+private theorem diamondR_maps : ∀ p ∈ diamondR.items, ∀ x, p.op = some x → OpWf x := by
+  intro p hp
+  simp only [diamondR, diamond, List.map_cons, List.map_nil, List.mem_cons, List.not_mem_nil, or_false] at hp
+  rcases hp with rfl | rfl | rfl | rfl | rfl <;> intro x hx <;> cases hx <;>
+    refine ⟨fun t ht => ?_, fun ts ht => ?_⟩ <;> cases ht <;> decide
+
+private theorem reached_represents {ops : List Op} {c : Oss}
+    (h : (runHist Variant.repaired exampleOracle ops).map (fun st => representsB st.s c) = some true) :
+    ∃ st, run Variant.repaired exampleOracle ops.reverse = some st ∧ Represents st.s c := by
+  unfold runHist at h
+  cases hr : run Variant.repaired exampleOracle ops.reverse with
+  | none => rw [hr] at h; cases h
+  | some st =>
+    rw [hr] at h
+    simp only [Option.map_some, Option.some.injEq] at h
+    exact ⟨st, rfl, represents_of_b h⟩
+
+/-- non-vacuity of `oss_roundtrip_reachable_partial` / `oss_reload_rearranged`: the diamond is reached, its
+content (items listed in another order than `storage`) is what the writer reads; the document with the items
+reversed and the connections child-first loads to the same parents, `StructInv` holds -/
+example : ∃ st, run Variant.repaired exampleOracle histDiamond.reverse = some st ∧ Represents st.s diamondR ∧
+    ∃ c', ossFromJson ⟨fun _ => 0⟩ (ossDoc "diamond" "c" "dom" diamondR.items.reverse (.arr [])
+        [(5, 3), (3, 1), (5, 4), (3, 2)]) = .ok c' ∧
+      c'.items = diamondR.items.reverse ∧ rowOf c'.rows 5 = [3, 4] ∧ rowOf c'.rows 3 = [1, 2] ∧
+      keysOf c'.rows = [5, 3, 1, 4, 2] ∧ StructInv (toStruct c') := by
+  obtain ⟨st, hr, hc⟩ := reached_represents (ops := histDiamond) (c := diamondR) (by decide +kernel)
+  obtain ⟨c', h1, _, _, _, h5, h6, _, h8, h9⟩ := oss_reload_rearranged _ _ _ st hr diamondR hc diamondR_maps ⟨fun _ => 0⟩
+    diamondR.items.reverse (List.reverse_perm _) (.arr []) [(5, 3), (3, 1), (5, 4), (3, 2)]
+    (hord_of_check _ _ (by decide) (by decide))
+  refine ⟨st, hr, hc, c', h1, h5, by rw [h6]; decide, by rw [h6]; decide, ?_, h9⟩
+  have : keysOf c'.rows = (toGraph c'.rows).items := rfl
+  rw [this, h8]; decide
+
+/-- 6 = 4 + 5, 7 = 2 + 3, 8 = 1 + 6, then save → load with the connections rearranged (every child keeps the
+order of its two connections: the history is admissible) -/
+def histOrder : List Op :=
+  [.insertBase 1, .insertBase 2, .insertBase 3, .insertBase 4, .insertBase 5,
+   .insertOperation 4 5 6, .insertOperation 2 3 7, .insertOperation 1 6 8,
+   .reload [8, 7, 6, 5, 4, 3, 2, 1] [(8, 1), (7, 2), (8, 6), (7, 3), (6, 4), (6, 5)]]
+
+/-- what the writer reads from the schema after `histOrder` -/
+def orderDoc : Oss :=
+  { title := "t"
+    items := [ { uid := 1, pos := ⟨0, 0⟩ }, { uid := 2, pos := ⟨0, 1⟩ }, { uid := 3, pos := ⟨0, 2⟩ },
+               { uid := 4, pos := ⟨0, 3⟩ }, { uid := 5, pos := ⟨0, 4⟩ },
+               { uid := 6, pos := ⟨1, 3⟩, op := some { type := .synt } }, { uid := 7, pos := ⟨1, 1⟩, op := some { type := .synt } },
+               { uid := 8, pos := ⟨2, 1⟩, op := some { type := .synt } } ]
+    rows := [(8, [1, 6]), (1, []), (7, [2, 3]), (2, []), (6, [4, 5]), (3, []), (4, []), (5, [])] }
+
+/-- **oss_connection_order_counterexample**: after the admissible history `histOrder` the schema's document
+lists the connections as 8, 7, 6; the loaded schema lists them (and `ExecuteOrder`) as 8, 6, 7 — pictogram 6
+is first mentioned as a parent of 8 — so the second document differs from the first in the order of
+`connections`. The real code does the same (`harness/replay/c10_oss_order.cpp`: `j1 connections
+[[8,1],[8,6],[7,2],[7,3],[6,4],[6,5]]`, `j2 connections [[8,1],[8,6],[6,4],[6,5],[7,2],[7,3]]`). -/
+theorem oss_connection_order_counterexample :
+    (∃ st, run Variant.repaired exampleOracle histOrder.reverse = some st ∧ Represents st.s orderDoc) ∧
+    admissibleRun Variant.repaired exampleOracle histOrder.reverse = true ∧
+    edgeList orderDoc.rows = [(8, 1), (8, 6), (7, 2), (7, 3), (6, 4), (6, 5)] ∧
+    (ossFromJson ⟨fun _ => 0⟩ (ossToJson orderDoc)).toOption.map (fun c' => edgeList c'.rows) =
+      some [(8, 1), (8, 6), (6, 4), (6, 5), (7, 2), (7, 3)] ∧
+    (ossFromJson ⟨fun _ => 0⟩ (ossToJson orderDoc)).toOption.map (fun c' => (ossToJson c').dump == (ossToJson orderDoc).dump) =
+      some false :=
+  ⟨reached_represents (ops := histOrder) (c := orderDoc) (by decide +kernel), by decide +kernel, by decide,
+   by decide +kernel, by decide +kernel⟩
+
+theorem oss_roundtrip_reachable_statement_false : ¬ oss_roundtrip_reachable_statement := by
+  intro hall
+  obtain ⟨⟨st, hr, hc⟩, hadm, he, hl, _⟩ := oss_connection_order_counterexample
+  obtain ⟨c', h1, _, _, _, _, h6, _⟩ := hall _ _ _ st hr hadm orderDoc hc
+    (by intro p hp x hx
+        simp only [orderDoc, List.mem_cons, List.not_mem_nil, or_false] at hp
+        rcases hp with rfl | rfl | rfl | rfl | rfl | rfl | rfl | rfl <;> cases hx <;>
+          refine ⟨fun t ht => ?_, fun ts ht => ?_⟩ <;> cases ht) ⟨fun _ => 0⟩
+  rw [h1] at hl
+  simp only [Except.toOption, Option.map_some, Option.some.injEq] at hl
+  rw [h6, he] at hl
+  revert hl; decide
+
+/-- **rowsCanon_not_invariant**: `RowsCanon` (parents-first rows, hypothesis of `oss_roundtrip` / `oss_stable`)
+holds for the diamond built through the API and fails after one plain save → load (the document exactly as
+written): `LoadParent` gives the child its index before its parents. -/
+theorem rowsCanon_not_invariant :
+    RowsCanon diamondR.rows ∧
+    (ossFromJson ⟨fun _ => 0⟩ (ossToJson diamondR)).toOption.map (fun c' => c'.rows) =
+      some [(3, [1, 2]), (1, []), (2, []), (5, [3, 4]), (4, [])] ∧
+    ¬ RowsCanon [(3, [1, 2]), (1, []), (2, []), (5, [3, 4]), (4, [])] := by
+  refine ⟨diamond_wf.codec.rows, by decide +kernel, ?_⟩
+  intro h
+  have := h.1
+  simp only [List.pairwise_cons] at this
+  exact (this.1 (1, []) (by simp)).2 (by simp)
+
+/-- `OssWf` as far as the codec needs it, with `RowsCanon` weakened to `RowsOk`: no pictogram WITH connections
+is mentioned as a parent in an earlier row (true of parents-first rows — `RowsCanon.rowsOk` — and of what a
+plain reload makes of them, e.g. the reloaded diamond below, where `RowsCanon` fails) -/
+structure OssWfOk (c : Oss) : Prop where
+  uids : (c.items.map (·.uid)).Nodup
+  cells : (c.items.map (·.pos)).Nodup
+  picts : ∀ p ∈ c.items, PictWf p
+  rows : RowsOk c.rows
+
+theorem OssWf.ok {c : Oss} (h : OssWf c) : OssWfOk c :=
+  ⟨h.codec.uids, h.codec.cells, h.codec.picts, h.codec.rows.rowsOk⟩
+
+/-- **oss_roundtrip_ordered**: `oss_roundtrip` (every field, the ORDER of the connections included) for the
+wider class `OssWfOk` -/
+theorem oss_roundtrip_ordered (env : Env) (c : Oss) (h : OssWfOk c) :
+    ∃ c', ossFromJson env (ossToJson c) = .ok c' ∧ c'.title = c.title ∧ c'.comment = c.comment ∧
+      c'.domain = c.domain ∧ c'.items = c.items ∧ edgeList c'.rows = edgeList c.rows ∧
+      ∀ p, rowOf c'.rows p = rowOf c.rows p :=
+  ⟨{ title := c.title, comment := c.comment, domain := c.domain, items := c.items,
+     rows := loadEdges [] (edgeList c.rows) },
+    by rw [ossToJson_eq]; exact ossFromJson_doc env _ _ _ c.items _ _ h.uids h.cells h.picts, rfl, rfl, rfl, rfl,
+    loadEdges_edgeList_ok c.rows h.rows, fun p => rowOf_loadEdges_ok c.rows h.rows p⟩
+
+/-- **oss_stable_ordered**: save ∘ load ∘ save = save for `OssWfOk` -/
+theorem oss_stable_ordered (env : Env) (c : Oss) (h : OssWfOk c) :
+    (ossFromJson env (ossToJson c)).map ossToJson = .ok (ossToJson c) := by
+  rw [ossToJson_eq, ossFromJson_doc env _ _ _ c.items _ _ h.uids h.cells h.picts]
+  simp only [Except.map, ossToJson, ossDoc, loadEdges_edgeList_ok c.rows h.rows]
+
+/-- the diamond after one reload (`rowsCanon_not_invariant`): child-first rows -/
+def diamondReloaded : Oss := { diamondR with rows := [(3, [1, 2]), (1, []), (2, []), (5, [3, 4]), (4, [])] }
+
+/-- non-vacuity: `OssWfOk` holds where `RowsCanon` does not -/
+example : OssWfOk diamondReloaded ∧ ¬ RowsCanon diamondReloaded.rows ∧
+    (ossFromJson ⟨fun _ => 0⟩ (ossToJson diamondReloaded)).map ossToJson = .ok (ossToJson diamondReloaded) := by
+  have h : OssWfOk diamondReloaded := by
+    refine ⟨by decide, by decide, ?_, ⟨by decide, by decide, by decide⟩⟩
+    intro p hp
+    exact ⟨by
+      simp only [diamondReloaded, diamondR, diamond, List.map_cons, List.map_nil, List.mem_cons, List.not_mem_nil, or_false] at hp
+      rcases hp with rfl | rfl | rfl | rfl | rfl <;> rfl, diamondR_maps p hp⟩
+  exact ⟨h, rowsCanon_not_invariant.2.2, oss_stable_ordered _ _ h⟩
 
 end CCVerif.JsonOss
